@@ -49,6 +49,17 @@ rec_hook(void *arg, const rm_record *r, const unsigned char *plain)
 }
 
 static long long n_faults, n_rejected, n_waiting, n_accepted_ok;
+static uint64_t far_delta;        /* feed(): the receiver's record counter is moved forward by this much after the restore */
+static int cur_enc;
+
+static uint64_t *
+seq_field_in(br_ssl_engine_context *e, int enc)
+{
+	if (enc <= 2) return &e->in.cbc.seq;
+	if (enc == 9) return &e->in.chapol.seq;
+	if (enc >= 5 && enc <= 8) return &e->in.ccm.seq;
+	return &e->in.gcm.seq;
+}
 static char fault_desc[300];
 static char base_case[600];
 
@@ -68,6 +79,7 @@ feed(const unsigned char *stream, size_t len, int chunk_policy, vf_rng *r,
 	int guard = 0;
 	*failed_in_time = 1;
 	tp_snap_restore(&rx_snap, RX);
+	if (far_delta) *seq_field_in(RX->eng, cur_enc) += far_delta;
 	sink.rd = sink.wr = 0;
 	while (guard ++ < 200000) {
 		unsigned st = br_ssl_engine_current_state(RX->eng);
@@ -388,6 +400,21 @@ main(int argc, char **argv)
 				snprintf(fault_desc, sizeof fault_desc, "truncate rec=%d at=%zu", k, t);
 				judge(wire, o + t, recs[k].poff, (size_t)-1, 0, 0, &r);
 				vf_stat("faults_truncate", 1);
+			}
+		}
+		/* replay from far back: the receiver is where it would be 2^16, 2^32, 2^48 or 2^63 records later (its counter is
+		   moved, nothing else: a 64-bit counter cannot be driven there by sending records) and is given the untouched
+		   records captured that many records earlier: the sequence number is part of what is authenticated, in full */
+		cur_enc = pv->s->enc;
+		if (scen != 2) {
+			static const int dist[4] = { 16, 32, 48, 63 };
+			int di;
+			for (di = 0; di < 4; di ++) {
+				far_delta = (uint64_t)1 << dist[di];
+				snprintf(fault_desc, sizeof fault_desc, "replay of the whole recorded stream 2^%d records later", dist[di]);
+				judge(wire, wire_len, 0, recs[0].wlen, 0, 0, &r);
+				far_delta = 0;
+				vf_stat("faults_far_replay", 1);
 			}
 		}
 		/* cross-connection splice: record k of a second connection with the same suite */
